@@ -135,16 +135,14 @@ def main():
                 continue
             root = t.root
             fn = h.syms
-            # ---- evaluation instead of solving: every input symbol is pinned, every reduction symbol has a finite
-            # definition over the N rows, so all values follow bottom-up by substitution + simplification (fixpoint)
+            # ---- evaluation instead of solving (pyvc.concrete): every input symbol pinned, every reduction symbol defined
             import math
 
-            pairs = {}
+            from pyvc.concrete import Evaluator, rv as _rv  # noqa: F401
 
-            def pin(term, val):
-                pairs[term.get_id()] = (term, val)
-
-            pin(root.n, z3.IntVal(N))
+            values = {k: sorted({r[k] for r in rows}) for k in KEYCOLS}
+            E = Evaluator(ctx, root, N, values)
+            pin, ev = E.pin, E.ev
             pin(alpha_s.t, rv(alpha))
             for i, r in enumerate(rows):
                 I = z3.IntVal(i)
@@ -160,40 +158,6 @@ def main():
                         pin(fn[f"null_{k}_third"](I), z3.BoolVal(False))
                 for nm, key in (("lower_bounds", "lb"), ("upper_bounds", "ub"), ("nr_lower", "nrl"), ("nr_upper", "nru")):
                     pin(fn[nm](I), rv(r[key]))
-            values = {k: sorted({r[k] for r in rows}) for k in KEYCOLS}
-            at = lambda t_, i: z3.substitute(t_, (root.u, z3.IntVal(i)))  # noqa: E731
-
-            def combos(params):
-                names = [str(p_)[3:] for p_ in params]
-                for vals in itertools.product(*[values[n] for n in names]):
-                    yield [(p_, z3.StringVal(v)) for p_, v in zip(params, vals)]
-
-            defs = []  # (lhs term, rhs term): finite definitions of every reduction symbol, for every concrete key tuple
-            for d in ctx.__dict__.get("_sums", []):
-                if d.space is not root:
-                    continue
-                ps = [p_ for p_ in d.rest_idx if str(p_).startswith("gk_")]
-                if len(ps) != len(d.rest_idx):
-                    continue
-                for sub in (combos(ps) if ps else [[]]):
-                    sb = (lambda t_, sub=sub: z3.substitute(t_, *sub)) if sub else (lambda t_: t_)
-                    defs.append((sb(d.sym), z3.Sum([z3.If(at(sb(d.dom), i), at(sb(d.summand), i), 0) for i in range(N)])))
-            for nm, (p_, member, r_) in ctx.__dict__.get("_present_defs", {}).items():
-                if r_ is not root:
-                    continue
-                ps = list(p_.children())
-                for sub in (combos(ps) if ps else [[]]):
-                    sb = (lambda t_, sub=sub: z3.substitute(t_, *sub)) if sub else (lambda t_: t_)
-                    defs.append((sb(p_), z3.Or(*[at(sb(member), i) for i in range(N)])))
-            for rec in ctx.__dict__.get("_anyall", []):
-                if rec["root"] is root:
-                    defs.append((rec["hit"], z3.Or(*[rec["body"](z3.IntVal(i)) for i in range(N)])))
-            for b, body, r_ in ctx.__dict__.get("_exists_defs", []):
-                if r_ is root:
-                    defs.append((b, z3.Or(*[at(body, i) for i in range(N)])))
-            for (rn, _k), (c, dom) in list(frames._COUNTS.items()):
-                if rn == root.name and z3.is_const(c):
-                    defs.append((c, z3.Sum([z3.If(at(dom, i), 1, 0) for i in range(N)])))
             spec = gmc.calls[0]["spec"]
             L = len(keys)
             skip = False
@@ -215,66 +179,16 @@ def main():
             for zc in {str(z_): z_ for f in ctx.pc for z_ in C15._consts(f) if str(z_).startswith("z_q")}.values():
                 pin(zc, rv(exp["zq"]))
 
-            def is_value(v):
-                return z3.is_int_value(v) or z3.is_rational_value(v) or z3.is_algebraic_value(v) or z3.is_true(v) or z3.is_false(v) or z3.is_string_value(v)
-
-            def sqrt_pass(t_):
-                """pyvc_sqrt(numeral) -> a 12-digit rational approximation (the comparison tolerance is one vote)"""
-                out, stack, seen = [], [t_], set()
-                while stack:
-                    x = stack.pop()
-                    if x.get_id() in seen:
-                        continue
-                    seen.add(x.get_id())
-                    if z3.is_app(x):
-                        if x.decl().name() == "pyvc_sqrt" and (z3.is_rational_value(x.arg(0)) or z3.is_int_value(x.arg(0))):
-                            a0 = x.arg(0)
-                            val = float(Fraction(a0.numerator_as_long(), a0.denominator_as_long())) if z3.is_rational_value(a0) else float(a0.as_long())
-                            out.append((x, rv(round(math.sqrt(max(val, 0.0)), 12))))
-                        stack.extend(x.children())
-                return out
-
-            def ev(t_):
-                # substitution is simultaneous and single-pass: iterate (an argument that becomes concrete exposes a
-                # pinned application) until nothing changes
-                for _ in range(12):
-                    t2 = z3.simplify(z3.substitute(t_, *pairs.values()))
-                    sq = sqrt_pass(t2)
-                    if sq:
-                        t2 = z3.simplify(z3.substitute(t2, *sq))
-                    if t2.get_id() == t_.get_id():
-                        break
-                    t_ = t2
-                return t_
-
-            progress = True
-            pending = [(z3.simplify(l), r_) for l, r_ in defs]
-            rounds = 0
-            while progress and pending and rounds < 12:
-                progress, rounds, nxt = False, rounds + 1, []
-                for lhs, rhs in pending:
-                    lhs2 = ev(lhs) if not z3.is_const(lhs) else lhs
-                    if lhs.get_id() in pairs or is_value(lhs2):
-                        continue
-                    v = ev(rhs)
-                    if is_value(v):
-                        pin(lhs, v)
-                        if lhs2.get_id() != lhs.get_id():
-                            pin(lhs2, v)
-                        progress = True
-                    else:
-                        nxt.append((lhs, rhs))
-                pending = nxt
+            pending = E.define_reductions()
             if os.environ.get("VERIF_DEBUG") and pending:
-
                 for lhs, rhs in pending[:3]:
-                    print("UNRESOLVED", str(lhs)[:100], "::", str(ev(rhs))[:600], "rounds", rounds, file=sys.stderr, flush=True)
+                    print("UNRESOLVED", str(lhs)[:100], "::", str(ev(rhs))[:300], file=sys.stderr, flush=True)
             # the path is THE path of this election iff every branch condition evaluates to true
-            conds = [ev(b_) for b_ in ctx.branches]
-            if any(z3.is_false(c_) for c_ in conds):
+            pm = E.path_matches()
+            if pm is False:
                 continue
-            if not all(z3.is_true(c_) for c_ in conds):
-                viol.append({"id": f"t{trial}", "what": "a branch condition could not be evaluated", "keys": keys, "cond": str([str(c_)[:200] for c_ in conds if not z3.is_true(c_)][:1])})
+            if pm is None:
+                viol.append({"id": f"t{trial}", "what": "a branch condition could not be evaluated", "keys": keys})
                 continue
             found += 1
             evals += 1
@@ -282,15 +196,7 @@ def main():
             ax = lower.axes[0]
             kvL = [spec.gs[L].keyvars[k] for k in keys]
 
-            def num(v):
-                v = ev(v)
-                if z3.is_int_value(v):
-                    return float(v.as_long())
-                if z3.is_rational_value(v):
-                    return float(Fraction(v.numerator_as_long(), v.denominator_as_long()))
-                if z3.is_algebraic_value(v):
-                    return float(v.approx(15).as_fraction())
-                return None
+            num = E.num
 
             bad = None
             for g, el, eu in zip(exp["groups"], exp["lower"], exp["upper"]):
